@@ -87,7 +87,9 @@ def check(q):
 
 def main():
     p = read_payload()
-    qs = ["(a)(b)", "\"p\"\"q\" r", "-(c)(d)^2", "x OR y", "a b", "a b c", "f:(a b) c", "(a b) OR c d", "a AND b c OR d e", "a (b (c d))", "+a -b c", "a OR b (c d) AND e"]
+    qs = ["(a)(b)", "\"p\"\"q\" r", "-(c)(d)^2", "x OR y", "a b", "a b c", "f:(a b) c", "(a b) OR c d", "a AND b c OR d e", "a (b (c d))", "+a -b c", "a OR b (c d) AND e",
+          "x:(a b)^2 c", "title:(foo bar)^3 OR body:(foo bar)", "x:-(a b)", "x:+(a b) y:NOT (c d)", "((a OR b) (c d))", "(a OR b (c d))", "x:(a AND b (c d) e)", "-(p OR q (r s) t)",
+          "(a)OR(b)", "NOT(a)", "(p q)OR(r)", "x:((a)AND(b)) y z", "a OR b c"]
     for i, seq in enumerate(gen.sequences(p["max_tokens"])):
         qs.append(gen.render(seq, i % 3, sep=" "))
         if i % 4 == 0:
@@ -96,7 +98,7 @@ def main():
     failures = [f for r in res for f in r[1]]
     rest, hit = classify(failures, p.get("known", []))
     emit({"ok": not rest, "evaluations": sum(r[0] for r in res), "distinct_nontrivial": len(qs),
-          "rule": "queries = accepted token sequences of <= %d tokens (single blanks; every 4th with minimal blanks) + 12 hand-picked (abutting operands, "
+          "rule": "queries = accepted token sequences of <= %d tokens (single blanks; every 4th with minimal blanks) + 25 hand-picked (abutting operands, implicit operations below boosted / prefixed field groups, "
                   "explicit operators at several levels) x 4 targets x 3 separators; node-by-node comparison with the input; fixed point; fresh vs "
                   "long-lived resolver; distinct = queries" % p["max_tokens"],
           "bound": "token sequences <= %d" % p["max_tokens"],
